@@ -140,6 +140,20 @@ C13D == {[key |-> k, exp |-> x] : k \in C13KeyClasses \cup {SessKey(0)}, x \in {
 C13Bounds == {<<>>, Ka, Kaz, Kz, OxiaPrefix, KoxEnd}
 C13R == {[s |-> a, e |-> b] : a, b \in C13Bounds}
 
+\* ---------------------------------------------------------------- c06
+\* every feature in one alphabet: plain / conditional puts, ephemeral puts (live and dead sessions), puts with
+\* secondary indexes, sequence puts, deletes, range deletes (small ones, and - from the pre-populated shard -
+\* one above the 100-key switch of applyDeleteRange), session registration, several operations per request
+C06Keys == {Ka, Kab, Kb}
+C06Live == {x \in 0..(n - 1) : SessKey(x) \in DOMAIN st.kv}
+C06P == {PlainPut(k, 0, x) : k \in C06Keys, x \in {NoExp, -1}}
+        \cup {[PlainPut(k, 0, NoExp) EXCEPT !.sess = x] : k \in {Ka, Kab}, x \in C06Live \cup {7}}
+        \cup {IdxPut(k, ix) : k \in {Ka, Kb}, ix \in {<<IE(Ni, Kb)>>, <<IE(Ni, Kc), IE(Nj, Kb)>>}}
+        \cup {SeqPut(Ks, <<1>>), SeqPut(Ktu, <<1, 2>>)}
+C06D == {[key |-> k, exp |-> NoExp] : k \in C06Keys}
+C06R == {[s |-> Ka, e |-> Kb], [s |-> Ks, e |-> Ks \o <<46>>], [s |-> <<>>, e |-> Kz]}
+C06Setups == << <<>>, BigPuts(101) >>
+
 \* ---------------------------------------------------------------- requests offered in a state
 Requests ==
     CASE Mode \in {"c12", "c12p"} -> ReqsOver(C12P, C12D, C12R, MaxOps)
@@ -147,6 +161,8 @@ Requests ==
       [] Mode = "c16" -> {r \in ReqsOver(C16P, C16D, C16R, MaxOps) : ~SeqStateError(st, Stamp(r))}
       [] Mode = "c15" -> ReqsOver(C15P, C15D, C15R, MaxOps)
       [] Mode = "c13" -> ReqsOver(C13P, C13D, C13R, MaxOps)
+      [] Mode = "c06" -> {r \in ReqsOver(C06P, C06D, C06R, MaxOps) : ~SeqStateError(st, Stamp(r))}
+                         \cup {[NoReq EXCEPT !.puts = <<PlainPut(SessKey(n), -1, NoExp)>>]}
 
 \* ---------------------------------------------------------------- steps
 RECURSIVE AnySeq(_)
@@ -187,7 +203,7 @@ DoWrite(r) ==
                  /\ st' = s1 /\ n' = n + 1
 
 \* behaviours start with one of the set-up prefixes of the mode, executed as ordinary writes
-InitSetups == CASE Mode = "c13" -> Setups [] Mode = "c12p" -> SetupsP [] Mode = "c12big" -> SetupsBig
+InitSetups == CASE Mode = "c13" -> Setups [] Mode = "c12p" -> SetupsP [] Mode = "c12big" -> SetupsBig [] Mode = "c06" -> C06Setups
                 [] OTHER -> << <<>> >>
 RECURSIVE RunSetup(_, _, _, _)
 RunSetup(s, i, reqs, h) ==
@@ -200,9 +216,21 @@ MInit ==
           LET r == RunSetup(InitState, 1, InitSetups[i], <<>>) IN
           st = r.s /\ n = Len(InitSetups[i]) /\ hist = r.h
 
-MNext == /\ nt < MaxReqs
-         /\ ~(hist # <<>> /\ hist[Len(hist)].kf)        \* a known-finding step ends the behaviour
-         /\ \E r \in Requests : DoWrite(r)
+\* c06: the leader is restarted at arbitrary points; a behaviour ends with the choice of the routes by which the
+\* same log is applied once more (off: the offset after which the snapshot is cut, ts: how far the commit offset
+\* announced to the follower lags behind the entry it is sent with)
+DoRestart == /\ Mode = "c06" /\ hist # <<>> /\ hist[Len(hist)].a # "Restart"
+             /\ nt' = nt + 1 /\ st' = st /\ n' = n
+             /\ hist' = Append(hist, RestartRec(st))
+DoRoutes  == /\ Mode = "c06" /\ nt = MaxReqs /\ n > 0
+             /\ nt' = nt + 1 /\ st' = st /\ n' = n
+             /\ \E k \in 0..(n - 1), g \in {0, 1, 3} :
+                   hist' = Append(hist, [RestartRec(st) EXCEPT !.a = "Routes", !.off = k, !.ts = g])
+
+MNext == \/ /\ nt < MaxReqs
+            /\ ~(hist # <<>> /\ hist[Len(hist)].kf)        \* a known-finding step ends the behaviour
+            /\ ((\E r \in Requests : DoWrite(r)) \/ DoRestart)
+         \/ DoRoutes
 
 MSpec == MInit /\ [][MNext]_mvars
 
@@ -345,4 +373,5 @@ NotifRule == [][ (Stepped /\ Accepted /\ Plain /\ ~Cur.kf) =>
 
 ExportSteps == (Export = "steps") => PrintT(<<"STEP", ToJson(hist')>>)
 ExportRuns  == (Export = "runs" /\ nt = MaxReqs) => PrintT(<<"RUN", ToJson(hist)>>)
+ExportRoutes == (Export = "runs" /\ nt = MaxReqs + 1) => PrintT(<<"RUN", ToJson(hist)>>)
 =============================================================================
